@@ -534,7 +534,7 @@ def judge(obs, expected):
                         f"sequential order of {mix}"))
     if obs.get("warn_changed"):
         names = ["filters", "showwarning", "_showwarnmsg_impl"]
-        out.append(({"class": "global_warnings_state", "kinds": kinds},
+        out.append(({"class": "global_warnings_state", "ops_using_catch_warnings": warn_kinds(mix)},
                     f"after {mix} ran concurrently the warnings module was left with foreign "
                     f"{[names[i] for i in obs['warn_changed']]} (two catch_warnings() contexts exited in the wrong order); "
                     f"sequentially the state is always restored"))
@@ -823,8 +823,6 @@ def warn_kinds(mix):
 
 
 def report_violation(rep, key, what, case):
-    if key.get("class") == "global_warnings_state":
-        key = {"class": "global_warnings_state", "ops_using_catch_warnings": warn_kinds(case["mix"])}
     rep.violation(key, what, case)
 
 
@@ -1049,7 +1047,8 @@ def _run(rep, tier, seed, B, rng, lb, pool, d):
     if not cov or never:
         rep.machinery(f"vacuous model run: actions never taken {never} (coverage entries: {len(cov)})")
     b2res = pool.map(replay_case, b2cases)
-    n_faithful = n_div = 0
+    _expected_for(d, rep, [tuple(tuple(p) for p in c["mix"]) for c in b2cases])        # one TLC run for all of them
+    n_faithful = n_div = n_diff = 0
     for c, o in zip(b2cases, b2res):
         rep.count(1)
         mi_key = tuple(tuple(p) for p in c["mix"])
@@ -1061,9 +1060,10 @@ def _run(rep, tier, seed, B, rng, lb, pool, d):
             n_faithful += 1
             mproj, mdup = model_project(c)
             if o["clean"] and (canon_outcome(o["proj"], o["registry"]) != canon_outcome(mproj, c["model_reg"])):
-                rep.violation({"class": "replay_differs", "kinds": kinds_of(c["mix"])},
-                              f"replaying the model's schedule step by step, the real results {o['proj']} / {o['registry']} differ "
-                              f"from the model's {mproj} / {c['model_reg']} for {c['mix']}", _b2_case(c, o))
+                # the property only demands SOME sequential order (judge() below): a different one is drift
+                n_diff += 1
+                rep.spec_drift(f"replaying the model's schedule step by step, the real results {o['proj']} / {o['registry']} "
+                               f"differ from the model's {mproj} / {c['model_reg']} for {c['mix']} ({c['origin']})")
             if bool(o["warn_changed"]) != (c["model_wstate"] != "orig"):
                 rep.spec_drift(f"warnings state: model {c['model_wstate']} vs real changed={o['warn_changed']} on {c['origin']}")
             rep.nontrivial(("b2", json.dumps(c["mix"]), canon_outcome(o["proj"], o["registry"]), min(o["nswitch"], 6)))
@@ -1078,6 +1078,10 @@ def _run(rep, tier, seed, B, rng, lb, pool, d):
     rep.add("model_schedules_replayed", len(b2cases))
     rep.add("model_schedules_followed_exactly", n_faithful)
     rep.add("model_schedules_diverged", n_div)
+    rep.add("model_schedules_followed_with_other_result", n_diff)
+    if n_diff * 5 > max(n_faithful, 1):
+        rep.machinery(f"{n_diff} of {n_faithful} exactly followed model schedules gave results other than the model's: "
+                      f"Threads.tla no longer predicts the code")
     if n_faithful == 0:
         rep.machinery("no concurrent model schedule could be followed step by step on the real code")
     if n_div > n_faithful:
@@ -1145,6 +1149,7 @@ def _run(rep, tier, seed, B, rng, lb, pool, d):
     if agg["pre_taken"] == 0:
         rep.machinery("no preemption was ever taken: the scheduler does not control the threads")
     # confirm every distinct violation standalone (pristine fork), then report it
+    _expected_for(d, rep, [tuple(tuple(p) for p in v["case"]["mix"]) for v in seen_keys.values()])
     for ck, v in seen_keys.items():
         case = v["case"]
         conf = pool.map(single_child, [{"mix": case["mix"], "policy": case["policy"], "gran": case["gran"]}])[0]
